@@ -171,10 +171,10 @@ HINT_ASSIGN = r'''proof {
                 }'''
 HINT_END = r'''proof {
                 assert forall|k: int| 0 <= k < self.ws@.len() implies #[trigger] self.slot_ok(k) by {
-                    assert(m1.slot_ok(k + split as int));
-                    if k > 0 { assert(m1.slot_ok(k - 1 + split as int)); }
+                    assert(m1.slot_ok(k + §partition_point_var§ as int));
+                    if k > 0 { assert(m1.slot_ok(k - 1 + §partition_point_var§ as int)); }
                 }
-                if (split as int) < m1.ws@.len() { assert(m1.ws@[split as int].end >= now); }
+                if (§partition_point_var§ as int) < m1.ws@.len() { assert(m1.ws@[§partition_point_var§ as int].end >= now); }
                 assert(Self::step(old(self), self, el, __out@, now, m1.ws@));
             }'''
 
@@ -238,15 +238,15 @@ def build(x):
                     __out@ == fired(old(self).ws@, old(self).ws@.len() - self.ws@.len()), self.same_params(old(self)),
                 decreases self.ws@.len(),
 ''')
-    pr.insert_before('let mut split: usize = 0;', 'let ghost m1 = *self;\n        proof { m1.lemma_all_mono(); }\n        ')
+    pr.insert_before('let mut §partition_point_var§: usize = 0;', 'let ghost m1 = *self;\n        proof { m1.lemma_all_mono(); }\n        ')
     pr.add_loop_spec(5, r'''
-            invariant split <= self.ws@.len(), *self == m1,
-                forall|k: int| 0 <= k < split ==> (#[trigger] self.ws@[k]).end < now,
-            decreases self.ws@.len() - split,
+            invariant §partition_point_var§ <= self.ws@.len(), *self == m1,
+                forall|k: int| 0 <= k < §partition_point_var§ ==> (#[trigger] self.ws@[k]).end < now,
+            decreases self.ws@.len() - §partition_point_var§,
 ''')
     pr.add_loop_spec(6, r'''
-                invariant __j <= split <= m1.ws@.len(), self.ws@ =~= m1.ws@.skip(__j as int), __out@ == fired(m1.ws@, __j as int), self.same_params(&m1),
-                decreases split - __j,
+                invariant __j <= §partition_point_var§ <= m1.ws@.len(), self.ws@ =~= m1.ws@.skip(__j as int), __out@ == fired(m1.ws@, __j as int), self.same_params(&m1),
+                decreases §partition_point_var§ - __j,
 ''')
     pr.insert_after('/*@drain_end*/', '\n            ' + HINT_END, nth=2)
     pieces += ["impl<A: WindowAccumulator> ProcessingTimeWindowManager<A>\nwhere\n    A::In: Data,\n    A::Out: Data,\n{", pr, "}"]
